@@ -73,7 +73,7 @@ class Report:
         s.distinct = set()
         s.known = load_known(pid)
         s.functions = set()
-        s.out_of_bound_paths = 0; s.tie_only_paths = 0
+        s.out_of_bound_paths = 0; s.tie_only_paths = 0; s.unexplored_global = 0
         s.twins_ok = 0; s.twins = 0
 
     def add(s, r):
@@ -89,6 +89,8 @@ class Report:
         for fn in r.get('functions', ()): s.functions.add(fn)
         if r.get('skip'):
             s.skipped[r['skip']] = s.skipped.get(r['skip'], 0) + 1
+            for c in r.get('unexplored', ()):
+                s.extra.setdefault('configurations_unexplored_within_the_time_budget', []).append(c)
         if r.get('obligations', 0) > 0:
             s.distinct.add(r.get('key', json.dumps(r.get('cfg'), sort_keys=True, default=str)))
         if r.get('sample') is not None and len(s.samples) < 6:
@@ -121,7 +123,7 @@ class Report:
                 'configurations': s.configs, 'paths': s.paths,
                 'obligations': s.obligations, 'discharged': s.discharged,
                 'solver_queries': s.queries, 'solver_seconds': round(s.solver_s, 2),
-                'skipped': s.skipped, 'out_of_bound_paths': s.out_of_bound_paths, 'paths_reachable_only_at_exact_rounding_ties (outside the claim)': s.tie_only_paths,
+                'skipped': s.skipped, 'out_of_bound_paths': s.out_of_bound_paths, 'configurations_unexplored_because_the_check_budget_ran_out': s.unexplored_global, 'paths_reachable_only_at_exact_rounding_ties (outside the claim)': s.tie_only_paths,
                 'reachability_twins': s.twins, 'reachability_twins_detected': s.twins_ok,
                 'samples': s.samples or ['(none)'],
                 'bounds': bounds, 'exhaustive': bool(exhaustive),
@@ -140,8 +142,14 @@ class Report:
         print(f"{s.pid} {s.tier}: configs={s.configs} paths={s.paths} obligations={s.obligations} discharged={s.discharged} "
               f"queries={s.queries} solver_s={s.solver_s:.1f} violations={len(s.violations)} known={sum(n for _, n in s.known_hits.values())} "
               f"inconclusive={len(s.inconclusive)} wall={wall:.1f}s", flush=True)
+        unexplored = s.unexplored_global + len(s.extra.get('configurations_unexplored_within_the_time_budget', []))
+        if unexplored:
+            print(f'UNEXPLORED: {unexplored} of {s.configs + s.unexplored_global} configurations were not explored within the time budgets (listed / counted in evidence)', flush=True)
         if s.violations:
             return EXIT_VIOLATION
+        if unexplored > max(3, 0.01 * (s.configs + s.unexplored_global)):
+            print('INCONCLUSIVE: more than 1% of the configurations could not be explored within the time budgets', flush=True)
+            return EXIT_INCONCLUSIVE
         if s.inconclusive:
             for inc in s.inconclusive[:10]:
                 print('INCONCLUSIVE:', json.dumps(inc, default=str)[:800], flush=True)
@@ -179,24 +187,78 @@ def run_pool(worker, cfgs, report, procs=None, chunksize=1, progress_every=0):
             report.add(worker(c))
         return
     ctxm = mp.get_context('fork')
+    budget = check_budget_s()
     with ctxm.Pool(procs, initializer=_init_worker, maxtasksperchild=200) as pool:
         n = 0
-        for r in pool.imap_unordered(worker, cfgs, chunksize=chunksize):
+        it = pool.imap_unordered(worker, cfgs, chunksize=chunksize)
+        while True:
+            left = budget - (time.time() - report.t0)
+            try:
+                r = it.next(timeout=max(1.0, left))
+            except StopIteration:
+                break
+            except mp.TimeoutError:
+                # the whole check used up its wall-clock budget: what was not explored is reported as such (and makes the run inconclusive when it
+                # is more than a sliver of the configuration set), never as a pass
+                report.unexplored_global += len(cfgs) - n
+                print(f'  .. wall-clock budget of {budget} s used up after {n}/{len(cfgs)} configurations: the rest is unexplored', flush=True)
+                pool.terminate()
+                break
             report.add(r); n += 1
             if progress_every and n % progress_every == 0:
                 print(f'  .. {n}/{len(cfgs)} configurations, {time.time() - report.t0:.0f}s', flush=True)
 
 
+def check_budget_s():
+    """wall-clock budget of one check run"""
+    try:
+        return int(os.environ.get('VERIF_CHECK_BUDGET_S', '0')) or (5400 if os.environ.get('VERIF_TIER_RUNNING') == 'thorough' else 1500)
+    except ValueError:
+        return 1500
+
+
+def core_SolverBudget():
+    from . import core
+    return core.SolverBudget
+
+
+class ConfigTimeout(BaseException):
+    """one configuration used up its wall-clock budget"""
+
+
+def config_budget_s():
+    """wall-clock budget per configuration: a configuration that exceeds it is reported as UNEXPLORED (listed in evidence), never as a pass"""
+    try:
+        return int(os.environ.get('VERIF_CONFIG_BUDGET_S', '0')) or (1500 if os.environ.get('VERIF_TIER_RUNNING') == 'thorough' else 600)
+    except ValueError:
+        return 600
+
+
 class guarded:
-    """wrap a worker so that an engine failure becomes an 'inconclusive' record, never a pass (picklable)"""
+    """wrap a worker so that an engine failure becomes an 'inconclusive' record, never a pass (picklable); enforces the per-configuration
+    wall-clock budget"""
     def __init__(s, fn):
         s.fn = fn
 
     def __call__(s, cfg):
+        import signal
+        budget = config_budget_s()
+        def on_alarm(signum, frame): raise ConfigTimeout()
+        try:
+            old = signal.signal(signal.SIGALRM, on_alarm); signal.alarm(budget)
+        except ValueError:
+            old = None          # not in the main thread of the worker: no budget enforcement
         try:
             return s.fn(cfg)
+        except ConfigTimeout:
+            return {'cfg': cfg, 'skip': f'unexplored: configuration exceeded its wall-clock budget of {budget} s', 'unexplored': [cfg]}
+        except core_SolverBudget() as e:
+            return {'cfg': cfg, 'skip': 'unexplored: a solver query ran into its time limit', 'unexplored': [cfg]}
         except BaseException as e:  # noqa
             return {'cfg': cfg, 'inconclusive': [{'cfg': cfg, 'error': f'{type(e).__name__}: {e}', 'trace': traceback.format_exc()[-1500:]}]}
+        finally:
+            if old is not None:
+                signal.alarm(0); signal.signal(signal.SIGALRM, old)
 
 
 # ---------------------------------------------------------------- function tracing (evidence only)
